@@ -309,7 +309,7 @@ def _gen_cases(rng, tier, ctx):
                 for preset in (0, 1, 2):
                     if preset == 0 and (cleared or rm != 'store_fresh'):
                         continue
-                    keep = 1.0 if tier == 'thorough' and len(kk) <= 2 else (0.16 if tier == 'quick' else 0.2)
+                    keep = 1.0 if tier == 'thorough' and len(kk) <= 2 else (0.16 if tier == 'quick' else 0.1)
                     if len(kk) <= 1 and tier == 'quick':
                         keep = 0.6
                     # operations that are rejected before the first write are cheap but dominate the product space
@@ -338,7 +338,7 @@ def _gen_cases(rng, tier, ctx):
         for rm in ('store_fresh', 'overwrite_cached0'):
             cases.append(enum_case('cfs', 1, rm, kk, False))
     # random templates on random storages
-    for _ in range({'quick': 150, 'thorough': 1500}[tier]):
+    for _ in range({'quick': 150, 'thorough': 2500}[tier]):
         cases.append(rand_case(rng, rng.choice(backends)))
     return cases
 
@@ -366,6 +366,8 @@ def histogram_keys(case, obs):
         keys.append('obs:crash')
     if case['note'].startswith('enum'):
         keys.append('stream:enum')
+    elif case['note'].startswith('corpus'):
+        keys.append('stream:corpus')
     else:
         keys.append('stream:' + case['note'])
     return keys
@@ -528,11 +530,19 @@ def search_failing(ctx, broken):
 
 
 MANIFEST = {
-    'level_text': 'Proof over a step model of the storage backends and of PulseStorage store/overwrite/delete (all '
-                  'storages, templates and crash positions, unbounded), tied to the code by fault injection at every '
-                  'mutating primitive of the real backends.',
-    'level_note': 'Trusted: Coq kernel, the fault injector and document parser of the harness, CPython os/zipfile. '
-                  'Only the order of system calls is modelled (no fsync/power-loss reordering; a zip append is one step).',
-    'technique': 'Coq proof (induction over the primitive step list / transaction buffer) + fault-injection correspondence',
+    'level_text': 'Proof (Coq, unbounded in storage content, template size and crash position) over a step model of the '
+                  'three storage backends and of PulseStorage store / overwrite / delete with its transaction buffer: '
+                  'after every prefix of the primitive steps the archive exists, every listed document is complete and '
+                  'every reference is listed, every identifier holds old or new content, and nothing changes before '
+                  'the first publishing step.  The model is tied to /repo on every run by fault injection at every '
+                  'mutating primitive of the real backends (plus a follow-up operation on the same PulseStorage).',
+    'level_note': 'Partial: clause (a) is proved as closedness (complete documents, references listed); recursive '
+                  'loadability additionally needs acyclicity, which the unchanged code does not guarantee (known finding '
+                  'overwrite-creates-cycle) - it is checked on every observed state, not proved.  Guard: one identifier '
+                  'names one document inside the stored template (known finding dup-id-in-transaction).  Only the order '
+                  'of system calls is modelled (no fsync / power loss; a zip append is one step).  Trusted: Coq kernel, '
+                  'the harness fault injector and document parser, CPython os / zipfile.',
+    'technique': 'Coq proof (induction over the primitive step list and the transaction buffer) + fault-injection '
+                 'correspondence check',
     'design_ref': 'DESIGN.md §5 C11',
 }
